@@ -1412,7 +1412,7 @@ static json_t *valid_by(const char *alg, const char *text, size_t tlen, const un
 		for (int i = 0; i < rings[r].n; i++) {
 			json_t *kd = rings[r].it[i].kd;
 			if (!kd || !strcmp(jstr(kd, "base", "~"), "rawobj")) continue;
-			if (json_object_get(kd, "defect") && json_is_array(json_object_get(kd, "defect"))) continue;
+			if (jint(kd, "bad", 0)) continue;
 			if (kd_verify(kd, alg, text, tlen, sig, sl))
 				json_array_append_new(a, json_integer(rings[r].it[i].id));
 		}
